@@ -118,6 +118,7 @@ Inductive st :=
 | TypesShortcutBeginOfSchemaName | TypesShortcutSchemaName | TypesShortcutBeforePipe
 | TypesShortcutAfterPipe
 | AnyCommentStart | InlineComment | MultiLineComment | KeyShortcut
+| MultiLineCommentStart                      (* after reading `##` (fix b9d4d7e) *)
 (* scanner_annotations.go *)
 | AnyAnnotationStart | InlineAnnotationStart | InlineAnnotation
 | InlineAnnotationTextPrefix | InlineAnnotationTextPrefix2 | InlineAnnotationText
@@ -396,8 +397,13 @@ Definition st_found_object_value_begin (s : sc) : res sc :=
 Definition st_begin_array_item_or_empty (s : sc) : res (bv * sc) :=
   if ch c 93 then (do s <- st_found_array_end s ; ROk (BVContinue, s))
   else
-    let s := if ann_none s then set_cx (mkctx (c_type (s_cx s)) true) s else s in
-    st_begin_value s.
+    (* fix eb704e4: the array has an item when an item begins; blanks and annotations before it are not one *)
+    do rs <- st_begin_value s ;
+    let '(r, s) := rs in
+    ROk (r, match r with
+            | BVContinue => s
+            | _ => if ann_none s then set_cx (mkctx (c_type (s_cx s)) true) s else s
+            end).
 
 Definition allow_annotation_for_array_item (r : bv) (s : sc) : sc :=
   match r with
@@ -593,8 +599,7 @@ Definition st_inline_comment (s : sc) : res sc :=
    empty comment ends with its line *)
 Definition st_any_comment_start (s : sc) : res sc :=
   if negb (ch c 35) then st_inline_comment (set_step InlineComment (set_ann ANone s))
-  else if next_is 35 then ROk (set_step MultiLineComment (set_ann ANone s))
-  else err_char.
+  else ROk (set_step MultiLineCommentStart (set_ann ANone s)).    (* second #: only the third # can follow (fix b9d4d7e) *)
 
 Definition st_multi_line_comment (s : sc) : res sc :=
   match la with
@@ -605,6 +610,10 @@ Definition st_multi_line_comment (s : sc) : res sc :=
     else ROk s
   | _ => ROk s
   end.
+
+(* after reading `##` *)
+Definition st_multi_line_comment_start (s : sc) : res sc :=
+  if ch c 35 then st_multi_line_comment (set_step MultiLineComment s) else err_char.
 
 (* ---- scanner_annotations.go ---- *)
 Definition begin_inline_annotation (s : sc) : res sc :=
@@ -645,6 +654,10 @@ Definition st_inline_annotation_text_prefix (s : sc) : res sc :=
     ROk (leave_inline_annotation (set_step f s))
   else if is_comment_start s c then switch_to_comment s
   else if ch c 45 then ROk (set_step InlineAnnotationTextPrefix2 s)
+  else if (s_lc s && Nat.eqb (length (s_stk s)) 1)%bool then
+    (* fix 0ff4f91: in length mode, with nothing but the annotation of the top-level value open, this is the
+       first byte after the schema, like in stateEndTop *)
+    ROk (found EndTop s)
   else err_char.
 
 Definition st_inline_annotation_text_prefix2 (s : sc) : res sc :=
@@ -748,6 +761,7 @@ Definition dispatch (f : st) (s : sc) : res sc :=
   | AnyCommentStart => st_any_comment_start s
   | InlineComment => st_inline_comment s
   | MultiLineComment => st_multi_line_comment s
+  | MultiLineCommentStart => st_multi_line_comment_start s
   | KeyShortcut => st_key_shortcut s
   | AnyAnnotationStart => st_any_annotation_start s
   | InlineAnnotationStart => st_inline_annotation_start s
@@ -876,6 +890,12 @@ Fixpoint run (s : sc) (idx : N) (pb : option byte) (bs : bytes) (acc : list lexe
     end
   end.
 
+Definition unfinished_step (f : st) : bool :=
+  match f with
+  | AnyAnnotationStart | InlineAnnotationStart | MultiLineCommentStart | MultiLineComment => true
+  | _ => false
+  end.
+
 (* the end-of-input rule of Next(): [index] = s.index before the call; each call that finds a
    non-empty stack bumps s.index once more.  [lastb] = the last byte of the data. *)
 Fixpoint tail (fuel : nat) (s : sc) (index : N) (size : N) (lastb : option byte) (acc : list lexev)
@@ -884,7 +904,11 @@ Fixpoint tail (fuel : nat) (s : sc) (index : N) (size : N) (lastb : option byte)
   | O => (acc, Panic)
   | S f =>
     match s_stk s with
-    | [] => (acc, Done)
+    | [] =>
+      (* fixes 0219b8c, ca80efc: nothing is open, but the text ends after the first byte of // or /* (unfinishedAnnotationStart:
+         true exactly while the step is one of the two states switchToAnnotation installs) or inside a ### comment
+         (unfinishedComment: true exactly while the step is one of the two comment states) *)
+      if unfinished_step (s_step s) then (acc, Err code_unexpected_eof (size - 1)%N) else (acc, Done)
     | (t, _) :: _ =>
       let i := index in                                          (* = (index + 1) - 1 *)
       let pb := if N.eqb index size then lastb else None in     (* s.data[i-1] *)
